@@ -126,6 +126,23 @@ def e_resp_header(f, a):
     if f.response:
         if a == 2: f.response.headers.pop("x-r", None)
         else: f.response.headers["x-r"] = str(a)
+def e_req_ce(f, a):
+    if a == 2: f.request.headers.pop("content-encoding", None)
+    else: f.request.headers["content-encoding"] = ["gzip", "bogus"][a]
+def e_resp_ce(f, a):
+    if f.response:
+        if a == 2: f.response.headers.pop("content-encoding", None)
+        else: f.response.headers["Content-Encoding"] = ["deflate", "bogus"][a]
+def e_req_te(f, a):
+    if a == 2: f.request.headers.pop("transfer-encoding", None)
+    else: f.request.headers["Transfer-Encoding"] = ["chunked", "identity"][a]
+def _content_typed(msg, v, prefix):
+    """`.content = v` described to the model: the value and what encoding.encode answers for the message's Content-Encoding"""
+    if v is None or msg is None: return prefix + " contentce ~ verr"
+    from mitmproxy.net import encoding as _enc
+    try: r = "ok:" + _hx(_enc.encode(v, msg.headers.get("content-encoding") or "identity"))
+    except ValueError: r = "verr"
+    return "%s contentce %s %s" % (prefix, _hx(v), r)
 def e_req_content_none(f, a): f.request.content = [None, b"", None][a]
 def e_resp_content_none(f, a):
     if f.response: f.response.content = [None, b"", None][a]
@@ -270,6 +287,7 @@ EDITS_COMMON = {
     "ts_created": ("timestamp_created", "reb", e_ts_created),
 }
 EDITS_HTTP = {
+    "req_ce": ("request", "mut", e_req_ce), "resp_ce": ("response", "mut", e_resp_ce), "req_te": ("request", "mut", e_req_te),
     "req_trailers": ("request", "mut", e_req_trailers), "req_trailer_set": ("request", "mut", e_req_trailer_set),
     "resp_trailers": ("response", "mut", e_resp_trailers), "resp_trailer_set": ("response", "mut", e_resp_trailer_set),
     "req_headers_new": ("request", "mut", e_req_headers_new), "resp_headers_new": ("response", "mut", e_resp_headers_new),
@@ -394,11 +412,14 @@ def typed_edit(name, f, a, ival):
     if name == "meta_replace": return "mrep " + t_meta([{}, {"a": 1}, {"l": [1]}][a], ival)
     if name == "req_path": return "req atom %d %d" % (REQ_ATOM["path"], ival([b"/path", b"/x", b"/y"][a]))
     if name == "req_method": return "req atom %d %d" % (REQ_ATOM["method"], ival([b"GET", b"POST", b"PUT"][a]))
-    if name == "req_content": return "req content " + _hx([b"content", b"", b"zzz"][a])
+    if name == "req_content": return _content_typed(f.request, [b"content", b"", b"zzz"][a], "req")
+    if name == "req_ce": return "req hdel " + _hx(b"content-encoding") if a == 2 else "req hset %s %s" % (_hx(b"content-encoding"), _hx([b"gzip", b"bogus"][a]))
+    if name == "resp_ce": return "resp hdel " + _hx(b"content-encoding") if a == 2 else "resp hset %s %s" % (_hx(b"Content-Encoding"), _hx([b"deflate", b"bogus"][a]))
+    if name == "req_te": return "req hdel " + _hx(b"transfer-encoding") if a == 2 else "req hset %s %s" % (_hx(b"Transfer-Encoding"), _hx([b"chunked", b"identity"][a]))
     if name == "req_header": return "req hdel " + _hx(b"x-h") if a == 2 else "req hset %s %s" % (_hx(b"x-h"), _hx(str(a).encode()))
     if name == "req_replace": return "reqrep Q" + t_msg(tutils.treq(path=[b"/path", b"/x", b"/r"][a]).get_state(), ival)
     if name == "resp_status": return "resp atom %d %d" % (RESP_ATOM["status_code"], ival([200, 404, 500][a]))
-    if name == "resp_content": return "resp content " + _hx([b"message", b"", b"other"][a])
+    if name == "resp_content": return _content_typed(f.response, [b"message", b"", b"other"][a], "resp")
     if name == "resp_set":
         r = [None, tutils.tresp(), tutils.tresp(status_code=404)][a]
         return "resprep " + ("R~" if r is None else "R" + t_msg(r.get_state(), ival))
@@ -419,8 +440,8 @@ def typed_edit(name, f, a, ival):
     if name == "req_headers_new": return "req hrep " + ["!", "!" + t_fields([(b"only", b"1")]), "!"][a]
     if name == "resp_headers_new": return "resp hrep " + ["!", "!" + t_fields([(b"only", b"1")]), "!"][a]
     if name == "resp_header": return "resp hdel " + _hx(b"x-r") if a == 2 else "resp hset %s %s" % (_hx(b"x-r"), _hx(str(a).encode()))
-    if name == "req_content_none": return "req content " + ["~", "-", "~"][a]
-    if name == "resp_content_none": return "resp content " + ["~", "-", "~"][a]
+    if name == "req_content_none": return _content_typed(f.request, [None, b"", None][a], "req")
+    if name == "resp_content_none": return _content_typed(f.response, [None, b"", None][a], "resp")
     if name == "dreq_q_clear": return "dreq qclear"
     if name == "dreq_q_append":
         if not len(f.request.questions) < 3: return None
@@ -480,7 +501,16 @@ class Check(PropertyCheck):
                   "typed histories compile to heap histories (runT_eq_run), giving typed_edit_predicts, "
                   "typed_revert_restores (revert after ANY sequence of nested edits = id), typed_copy_independent, "
                   "typed_modified_after_backup, typed_sep_preserved, plus hdrSet_has / hdrDel_not_has / "
-                  "setContent_sets_length. Tie: identical histories on real HTTP, WebSocket, TCP, UDP and DNS flows; "
+                  "setContent_sets_length; Message.set_content in full, incl. a Content-Encoding header (setContentCE: encode with the "
+                  "header's coding, delete the header when the coding is invalid, Content-Length unless Transfer-Encoding), "
+                  "proved to refine the C31 model of the same method for every message, cache and codec answer "
+                  "(setContentCE_refines_C31, setContentCE_identity, hdrGet_set_self/_other, hdrGet_del); object layer "
+                  "(Model/C40_Obj.lean): http.Message as an object graph with Headers/trailers objects in a heap, "
+                  "get_state/from_state/copy transcribed - obj_edit_simulates (object edits = typed value edits), "
+                  "reachable-store forms without the no-aliasing hypothesis (sep_reachable, typed_revert_restores_reachable, "
+                  "typed_copy_independent_reachable), obj_edit_frame, fromState_fresh_roundtrip (from_state builds only fresh Headers objects and round-trips: "
+                  "derived, no longer assumed, for messages), obj_copy_independent (copy, then ANY edit history of either "
+                  "side incl. in-place header/trailer edits, leaves the other's state), obj_edits_simulate. Tie: identical histories on real HTTP, WebSocket, TCP, UDP and DNS flows; "
                   "generic layer compares every flow's id/live/component states/backup/modified() after each operation; "
                   "for HTTP and WebSocket flows the typed layer is given only the DESCRIPTION of each edit and must predict "
                   "the full nested get_state() of every flow (compared token by token, incl. header lists and bodies).")
@@ -494,10 +524,11 @@ class Check(PropertyCheck):
                   "vs after) because the statement is; the input-derived reference for the state after an edit is the typed "
                   "model's prediction. Leaf values the model "
                   "never computes on (timestamps, host, path, status, connection field values, metadata values) are interned "
-                  "atoms, header names/values and bodies are real bytes; set_content is modelled for messages without a "
-                  "content-encoding header; nested mutation inside a metadata VALUE is given as the new value. Fresh-cell allocation by from_state/copy and the "
-                  "in-place/re-assign split of set_state are modelling claims validated by the differential run, not "
-                  "proved about Python. Flow.modified() is modelled after the repair of F-C40a. A copy inherits the "
+                  "atoms, header names/values and bodies are real bytes; set_content is modelled in full - the answer of encoding.encode (the codec "
+                  "libraries are C31's parameter) is an input of the edit; nested mutation inside a metadata VALUE is given as the new value. Fresh-object allocation by from_state/copy is derived from the transcription for http.Message "
+                  "(object layer); for the other component classes (connections, Error, WebSocketData, TCP/UDP/DNS messages) and "
+                  "the in-place/re-assign split of Flow.set_state it remains a modelling claim of the component heap validated "
+                  "by the differential run. Flow.modified() is modelled after the repair of F-C40a. A copy inherits the "
                   "source's backup including the source's id, so reverting a copy gives it the source's id: modelled as "
                   "implemented (not part of the C40 statement).")
     technique = "Lean 4 proof (heap model, induction over operation histories) + differential model-vs-code correspondence"
